@@ -276,9 +276,21 @@ def _shard(shard, seed, tier):
                 _serve_monitored(env, d, t)
         before = env.outside_digest()
         resA = {}
+        rig.REQUEST_TIME_LIMIT = 3
+        timeouts = 0
+        done = []
         for i in idxs:
             w, enc, p, data, tls = reqs[i]
             resA[i] = _serve_monitored(env, data, tls)
+            done.append(i)
+            if isinstance(resA[i][0].escaped, rig.RequestTimeout):
+                timeouts += 1
+                part.violation("%s|%s|%s|tls=%d|timeout" % (handlers, cwdname, ascii(data[:160]), tls), "request did not finish within %d s" % rig.REQUEST_TIME_LIMIT,
+                               {"kind": "req", "handlers": handlers, "cwd": cwdname, "w": w, "p": p, "data": data, "tls": tls})
+                if timeouts >= 5:
+                    part.extra.setdefault("capped", []).append("shard aborted after %d timed-out requests" % timeouts)
+                    break
+        idxs = done
         afterA = env.outside_digest()
         if afterA != before:
             part.violation("outside-modified|%s|%s|A" % (handlers, cwdname), "the tree outside the root changed while serving requests", {"kind": "outside", "handlers": handlers, "cwd": cwdname})
@@ -339,7 +351,9 @@ def run(ck):
     for handlers, cwdname in configs:
         for ch in core.chunks(order, per):
             shards.append((handlers, cwdname, ch))
-    ck.pmap(_shard, shards)
+    p = ck.pmap(_shard, shards)
+    if p.extra.get("capped"):
+        ck.caps.append("%d shard(s) aborted early after repeated request timeouts" % len(p.extra["capped"]))
     ck.rule = (
         "requests = 13 wrappers x {std, all-bytes, double, raw} percent-encodings x paths (<=2 segments over %d segments x 3 separators; <=3 segments over a core alphabet; curated climbs); "
         "each served under handler lists/working directories %s in two states of the world outside the root; distinct = (protocol family, response class, tries-to-climb)"
